@@ -85,6 +85,7 @@ type Term struct {
 	Bound []*Term  // forall/exists
 	Pats  [][]*Term
 	Facts []*Term // side facts that hold whenever this term is meaningful
+	OpenFacts []*Term // facts recorded while the term was under a binder (see AddFact)
 	id    int
 	open  bool // mentions a bound variable
 }
@@ -785,8 +786,21 @@ func (c *Ctx) Int2BV(a *Term) *Term {
 
 // AddFact attaches a side fact to t.
 func (t *Term) AddFact(f *Term) {
-	if f.IsTrue() || t.open || f.open {
-		// facts about terms under a binder cannot be asserted at top level
+	if f.IsTrue() {
+		return
+	}
+	if t.open || f.open {
+		// facts about terms under a binder cannot be asserted at top level: they
+		// are kept aside and re-attached, instantiated, when a substitution
+		// closes the term (quantifier instantiation)
+		if t.open && len(t.OpenFacts) < 4 {
+			for _, g := range t.OpenFacts {
+				if g == f {
+					return
+				}
+			}
+			t.OpenFacts = append(t.OpenFacts, f)
+		}
 		return
 	}
 	for _, g := range t.Facts {
@@ -823,6 +837,14 @@ func (c *Ctx) Subst(t *Term, m map[*Term]*Term) *Term {
 		r := u
 		if ch {
 			r = c.rebuild(u, args)
+			memo[u] = r
+			if len(u.OpenFacts) > 0 && !r.open {
+				for _, f := range u.OpenFacts {
+					if g := rec(f); !g.open {
+						r.AddFact(g)
+					}
+				}
+			}
 		}
 		memo[u] = r
 		return r
